@@ -719,12 +719,15 @@ class BranchBuilder(AstVisitor[None]):
     def visit_Compare(
         self, node: ast.Compare, bb: BB, true_bb: BB, false_bb: BB
     ) -> None:
-        # Support chained comparisons, e.g. `x <= 5 < y` by compiling to `x <= 5 and
-        # 5 < y`. This way we get short-circuit evaluation for free.
+        # Support chained comparisons, e.g. `x <= y < z`: they mean `x <= y and y < z`
+        # with short-circuit evaluation, except that `y` is evaluated only once
         if len(node.comparators) > 1:
             comparators = [node.left, *node.comparators]
-            values = [
-                ast.Compare(
+            left = node.left
+            for i, (_, op, right) in enumerate(
+                zip(comparators[:-1], node.ops, comparators[1:], strict=True)
+            ):
+                cmp = ast.Compare(
                     left=left,
                     ops=[op],
                     comparators=[right],
@@ -733,13 +736,31 @@ class BranchBuilder(AstVisitor[None]):
                     end_lineno=right.end_lineno,
                     end_col_offset=right.end_col_offset,
                 )
-                for left, op, right in zip(
-                    comparators[:-1], node.ops, comparators[1:], strict=True
+                set_location_from(cmp, node)
+                if i == len(node.ops) - 1:
+                    self.generic_visit(cmp, bb, true_bb, false_bb)
+                    break
+                # The right operand is used again by the next comparison. Unless it is
+                # a constant or a variable that the remaining operands don't assign, we
+                # have to remember its value in a temporary.
+                later = [x for c in comparators[i + 2 :] for x in assigned_names(c)]
+                next_bb = self.cfg.new_bb()
+                builder = ExprBuilder(self.cfg, bb)
+                builder.build_operands(
+                    [(cmp, "left"), (cmp.comparators, 0)],
+                    last_is_stored=not isinstance(right, ast.Constant | ast.Name),
                 )
-            ]
-            conj = ast.BoolOp(op=ast.And(), values=values)
-            set_location_from(conj, node)
-            self.visit_BoolOp(conj, bb, true_bb, false_bb)
+                right = cmp.comparators[0]
+                if not (
+                    isinstance(right, ast.Constant)
+                    or (isinstance(right, ast.Name) and right.id not in later)
+                ):
+                    right = cmp.comparators[0] = builder.bind(right)
+                bb = builder.bb
+                bb.branch_pred = cmp
+                self.cfg.link(bb, false_bb)
+                self.cfg.link(bb, next_bb)
+                bb, left = next_bb, right
         else:
             self.generic_visit(node, bb, true_bb, false_bb)
 
